@@ -16,13 +16,29 @@ static int     hl_probe_seen;
 static uint32_t hl_last_read_serial;
 static int     hl_rotate_hits[SIM_MAXSRV];
 
+static int      hl_success_since_read; /* a success of the server whose packet was read last has been reported since that read */
 static void hl_on_read(int fd, uint32_t serial)
 {
   (void)fd;
-  hl_last_read_serial = serial;
+  hl_last_read_serial   = serial;
+  hl_success_since_read = 0;
 }
 
 static void hl_hist_push(void);
+
+/* a server that is about to be added starts healthy; what the setter itself reports about it while it moves the
+ * waiting queries over (an attempt that fails on the spot) counts from there */
+static uint8_t hl_pre_reset[SIM_MAXSRV];
+static void    hl_pre_config(const int *idx, int n)
+{
+  int i;
+  for (i = 0; i < n; i++) {
+    if (idx[i] >= 0 && idx[i] < SIM_MAXSRV && !hl_configured[idx[i]]) {
+      hl_cnt[idx[i]]       = 0;
+      hl_pre_reset[idx[i]] = 1;
+    }
+  }
+}
 
 static void hl_reset_config(const int *idx, int n)
 {
@@ -34,9 +50,10 @@ static void hl_reset_config(const int *idx, int n)
         now_cfg = 1;
       }
     }
-    if (now_cfg && !hl_configured[k]) {
+    if (now_cfg && !hl_configured[k] && !hl_pre_reset[k]) {
       hl_cnt[k] = 0; /* a newly added server starts healthy */
     }
+    hl_pre_reset[k] = 0;
     if (!now_cfg && hl_configured[k]) {
       /* attempts still waiting on a server that has just been removed are moved to the remaining servers; over
        * TCP the move reaches the network only after the new connection is up, i.e. after the setter returned:
@@ -62,6 +79,9 @@ static void mon_health_state(int srv, int success, int flags)
   }
   MON_EVAL("health_stream_event");
   if (success) {
+    if (hl_last_read_serial != 0 && hl_last_read_serial <= sim_npkt && sim_pktinfo[hl_last_read_serial - 1].srv == srv) {
+      hl_success_since_read = 1;
+    }
     hl_succ_events[srv]++;
     hl_cnt[srv]            = 0;
     hl_last_success_us[srv] = sim_now_us;
@@ -165,6 +185,10 @@ static void mon_health_tx(sim_tx_t *tx, const sdns_query_t *q, const uint8_t *ms
   (void)msg;
   (void)len;
   mon_net_tx(tx, q, msg, len);
+  {
+    const ares_query_t *lq0 = app_channel ? ares_htable_szvp_get_direct(app_channel->queries_by_qid, tx->qid) : NULL;
+    tx->lib_try             = lq0 ? (int)lq0->try_count : -1;
+  }
   if (!tx->wellformed || tx->srv < 0) {
     return;
   }
@@ -217,7 +241,9 @@ static void mon_health_tx(sim_tx_t *tx, const sdns_query_t *q, const uint8_t *ms
     }
   }
   if (prev >= 0 && (sim_tx[prev].action == SA_FORMERR_NOOPT || sim_tx[prev].action == SA_FORMERR_OPT) && sim_tx[prev].has_opt &&
-      !tx->has_opt && sim_tx[prev].srv == tx->srv) {
+      !tx->has_opt && sim_tx[prev].srv == tx->srv && (tx->lib_try < 0 || sim_tx[prev].lib_try < 0 || tx->lib_try == sim_tx[prev].lib_try)) {
+    /* (same try: if the library counted a failed attempt since - the re-send itself could not be sent - this
+     * transmission is a fresh attempt and goes where fresh attempts go) */
     sim_note("health_same_server_edns_downgrade");
     return; /* the one resend that deliberately goes back to the same server */
   }
@@ -264,7 +290,11 @@ static void mon_health_tx(sim_tx_t *tx, const sdns_query_t *q, const uint8_t *ms
       /* "failed servers are re-tried by separate probe copies sent after the retry delay": with retry chance 1 a
        * first attempt that went to a healthy server is accompanied by a probe whenever some failed server is past
        * its delay and has no probe outstanding */
-      if (prev < 0 && app_cfg.failover_set && app_cfg.failover_chance == 1 && cur_cnt[tx->srv] == 0 && hl_nexp < HL_MAXEXP) {
+      /* (an attempt that failed inside a socket call never reached the network: the first transmission SEEN may be
+       * the library's second attempt, which is not accompanied by a probe - ask the library which attempt it is) */
+      const ares_query_t *lq = app_channel ? ares_htable_szvp_get_direct(app_channel->queries_by_qid, tx->qid) : NULL;
+      if (prev < 0 && lq != NULL && lq->try_count == 0 && app_cfg.failover_set && app_cfg.failover_chance == 1 && cur_cnt[tx->srv] == 0 &&
+          hl_nexp < HL_MAXEXP) {
         int64_t  delay_us = (int64_t)app_cfg.failover_delay_ms * 1000;
         unsigned mask     = 0;
         for (i = 0; i < app_cfg.nsrv_cfg; i++) {
@@ -338,8 +368,10 @@ static void mon_health_tx(sim_tx_t *tx, const sdns_query_t *q, const uint8_t *ms
   /* at most one probe outstanding per server: a second probe before the first was answered or timed out */
   for (i = sim_ntx - 2; i >= 0; i--) {
     if (sim_tx[i].probe_like && sim_tx[i].srv == tx->srv) {
-      /* resolved if a state event for that server happened since */
-      if (cur_fail_us[tx->srv] <= sim_tx[i].t && hl_last_success_us[tx->srv] <= sim_tx[i].t) {
+      /* resolved if a state event for that server happened since, or if the library's probe query is gone (a
+       * BADCOOKIE reply ends a probe - it is never re-sent - without the server counting as good or as failed) */
+      if (cur_fail_us[tx->srv] <= sim_tx[i].t && hl_last_success_us[tx->srv] <= sim_tx[i].t && app_channel != NULL &&
+          sim_tx[i].qid != tx->qid && ares_htable_szvp_get_direct(app_channel->queries_by_qid, sim_tx[i].qid) != NULL) {
         vh_violation("health:two-probes-pending", "second probe sent to server %d while the previous one (sent %lld ms ago) is unresolved",
                      tx->srv, (long long)((sim_now_us - sim_tx[i].t) / 1000));
       }
@@ -362,6 +394,17 @@ static void mon_health_anchor_final(void)
           sim_tx[j].srv >= 0 && sim_tx[j].srv != a->srv && sim_tx[j].t >= a->t && sim_tx[j].t <= a->t + 1000) {
         /* (the mask is a conservative subset of the servers the library may consider due: any probe satisfies it) */
         ok = 1;
+      }
+    }
+    if (!ok && sim_faults_fired > 0) {
+      /* the probe was made but its socket call failed on the spot (injected fault): all that shows is the failure
+       * reported for another server right after the first attempt went out, in the same instant */
+      int k;
+      for (k = 0; k < ss_n && !ok; k++) {
+        if (!ss_ev[k].success && ss_ev[k].srv != a->srv && ss_ev[k].t == a->t && ss_ev[k].ntx_at == hl_exp[i].txi + 1) {
+          ok = 1;
+          sim_note("health_probe_failed_in_socket_call");
+        }
       }
     }
     if (!ok) {
@@ -448,6 +491,30 @@ static void mon_health_anchor_final(void)
   }
 }
 
+/* Order of the two things an accepted answer causes.  The completion callback may start the next request at once
+ * (the library's own search and address lookups do), and that attempt has to find the answering server restored:
+ * so when a request completes successfully with the answer that was read in this very processing call (one
+ * datagram per call in this profile), the server's success must have been reported already. */
+static void mon_health_tok_done(app_tok_t *t)
+{
+  uint32_t s;
+  if (t->cb_count != 1 || t->cb_status != ARES_SUCCESS || t->nserials < 1 || !app_in_process) {
+    return;
+  }
+  s = t->serials[0];
+  if (s == 0 || s > sim_npkt || s != hl_last_read_serial || sim_pktinfo[s - 1].forged || sim_pktinfo[s - 1].t_read != sim_now_us ||
+      sim_pktinfo[s - 1].srv < 0) {
+    return;
+  }
+  MON_EVAL("health_success_before_completion");
+  if (!hl_success_since_read) {
+    vh_violation("health:success-reported-after-completion",
+                 "request '%s' completed with the answer just read from server %d (packet %u) before that server's success was "
+                 "reported: a request started from the completion callback still sees the server with %d failure(s)",
+                 t->name, sim_pktinfo[s - 1].srv, s, hl_cnt[sim_pktinfo[s - 1].srv]);
+  }
+}
+
 static void gen_failover(vh_rng_t *rng)
 {
   int     i, n, nsrv;
@@ -461,7 +528,7 @@ static void gen_failover(vh_rng_t *rng)
   sim_cfg.nonblocking_flag = 0;
   sim_cfg.one_fd_per_call  = 1;
   for (i = 0; i < sim_nsrv; i++) {
-    static const int moods[] = { MOOD_GOOD, MOOD_GOOD, MOOD_SILENT, MOOD_ERR, MOOD_FLAKY, MOOD_NEG, MOOD_RESET };
+    static const int moods[] = { MOOD_GOOD, MOOD_GOOD, MOOD_SILENT, MOOD_ERR, MOOD_FLAKY, MOOD_NEG, MOOD_RESET, MOOD_FORMERR };
     vsrv_t          *s       = &sim_srv[i];
     gen_srv_mood(s, moods[vh_below(rng, sizeof(moods) / sizeof(int))], rng);
     s->w_udp[SA_DUP] = 0;
@@ -506,6 +573,25 @@ static void gen_failover(vh_rng_t *rng)
     app_cfg.failover_chance   = vh_chance(rng, 1, 5) ? 0 : vh_range(rng, 1, 3);
     app_cfg.failover_delay_ms = vh_chance(rng, 1, 2) ? 0 : vh_range(rng, 100, 3000);
   }
+  /* socket calls that fail on the spot: the attempt is over at once and the next one is chosen in the same call
+   * (also for a re-send that was directed at one server: EDNS downgrade after FORMERR, TCP after truncation) */
+  sim_nfaults = 0;
+  if (vh_chance(rng, 1, 4)) {
+    static const int errs[] = { ECONNREFUSED, ENETUNREACH, EHOSTUNREACH, ECONNRESET, EIO };
+    int              nf     = vh_range(rng, 1, 3);
+    for (i = 0; i < nf; i++) {
+      sim_faults[sim_nfaults].kind  = vh_chance(rng, 1, 2) ? SF_SENDTO : (int)vh_below(rng, SF__COUNT);
+      sim_faults[sim_nfaults].nth   = vh_range(rng, 1, 10);
+      sim_faults[sim_nfaults].err   = errs[vh_below(rng, sizeof(errs) / sizeof(int))];
+      sim_faults[sim_nfaults].fired = 0;
+      sim_nfaults++;
+    }
+    sim_note("failover_with_socket_faults");
+  }
+  if ((app_cfg.flags & ARES_FLAG_EDNS) && vh_chance(rng, 1, 2)) {
+    static const int errs2[]      = { ENETUNREACH, EHOSTUNREACH, ECONNREFUSED };
+    sim_cfg.fail_downgrade_resend = errs2[vh_below(rng, 3)];
+  }
   mon_enable_idx = mon_enable_fd = mon_enable_timer = 0;
   app_sched.max_steps                               = 60000;
   app_sched.idle_ms_after                           = 50;
@@ -547,8 +633,14 @@ static void run_failover(vh_rng_t *rng)
   mon_server_state_hook = mon_health_state;
   sim_read_hook         = hl_on_read;
   hl_config_hook        = hl_reset_config;
+  hl_preconfig_hook     = hl_pre_config;
+  memset(hl_pre_reset, 0, sizeof(hl_pre_reset));
+  mon_tok_done_hook     = mon_health_tok_done;
+  hl_success_since_read = 0;
   run_generic(rng);
+  mon_tok_done_hook = NULL;
   hl_config_hook = NULL;
+  hl_preconfig_hook = NULL;
   sim_read_hook  = NULL;
   if (!vh_case_viol) {
     mon_health_anchor_final();
